@@ -11,11 +11,15 @@
    The result is the list of reported error classes in the order validate appends them (the Go
    executor maps each error message to the same class number).  Every Go slice expression is a
    checked [slice] yielding [Panic site]:  f.Buf()[:f.HeaderLen] (501),  f.buf[:headerSize] in
-   ChecksumHeader (502),  f.Buf()[headerSize:] (503).
+   ChecksumHeader (502),  f.Buf()[headerSize:] (503),  f.Buf()[fvlen-f.FreeSpace:] (504).
 
    The file body check is the REPAIRED one (fixes/C09-validate-body-checksum.diff): body bytes plus the
    IntegrityCheck.File byte sum to zero, which is what ChecksumAndAssemble writes.  [validate_file_old]
    is the check of the pinned code (body bytes alone sum to zero), kept for the refutation lemmas.
+   The volume case ends with the check added by fixes/C09-validate-free-space-erased.diff: the last
+   FreeSpace bytes of the volume are all equal to the volume's erase polarity (uefi.IsErased);
+   FreeSpace is a uint64, so "!= 0" is rendered as "0 <".  [validate_gen false] is the pinned code
+   (neither repair), [validate_gen true] = [validate] the repaired one.
 
    Not modelled: FlashImage / FlashDescriptor / MERegion / RawRegion cases (flash-descriptor level,
    property C12), the W != nil path (printing and os.Exit), the texts of the messages. A BIOS region
@@ -35,6 +39,7 @@ Definition V_FV_SIGNATURE : Z := 7.
 Definition V_FV_LENGTH : Z := 8.      (* length mismatch *)
 Definition V_FV_CKERR : Z := 9.       (* unable to checksum (odd header length) *)
 Definition V_FV_CKSUM : Z := 10.      (* header did not sum to 0 *)
+Definition V_FV_FREESPACE : Z := 11.  (* free space is not erased *)
 Definition V_F_SHORT : Z := 32.       (* file length too small *)
 Definition V_F_EXTSHORT : Z := 33.    (* too small for extended header *)
 Definition V_F_NOTLARGE : Z := 34.    (* extended header but large attribute not set *)
@@ -52,13 +57,21 @@ Definition V_R_POLARITY : Z := 82.    (* erase polarity mismatch *)
 
 Definition known_fv_guid (g : bytes) : bool := existsb (bytes_eqb g) c09_fv_guids.
 
-(* case *uefi.FirmwareVolume *)
-Definition validate_vol (h : volhdr) (buf : bytes) : outcome (list Z) :=
+(* the block-map entries before the first zero entry (a volume built by create-fv keeps the
+   terminator in its block list; the parser never does) *)
+Fixpoint nblocks (l : list (Z * Z)) : Z :=
+  match l with
+  | [] => 0
+  | (c, s) :: r => if (c =? 0) && (s =? 0) then 0 else 1 + nblocks r
+  end.
+
+(* case *uefi.FirmwareVolume; [fixed] selects the repaired code (with the free-space check) *)
+Definition validate_vol_gen (fixed : bool) (h : volhdr) (buf : bytes) : outcome (list Z) :=
   let fvlen := zlen buf in
   if fvlen <? c09_fv_min_size then Ok [V_FV_SHORT] else
   if v_hdrlen h <? c09_fv_min_size then Ok [V_FV_HDRSMALL] else
   if fvlen <? v_hdrlen h then Ok [V_FV_BUFSMALL] else
-  let e1 := if v_hdrlen h =? c09_fv_fixed_header_size + 8 * (zlen (v_blocks h) + 1)
+  let e1 := if v_hdrlen h =? c09_fv_fixed_header_size + 8 * (nblocks (v_blocks h) + 1)
             then [] else [V_FV_HDRBLOCKS] in
   let e2 := if known_fv_guid (v_guid h) then [] else [V_FV_UNKNOWN] in
   let e3 := if v_rev h =? 2 then [] else [V_FV_REVISION] in
@@ -67,7 +80,16 @@ Definition validate_vol (h : volhdr) (buf : bytes) : outcome (list Z) :=
   do hb <- of_opt 501 (slice 0 (v_hdrlen h) buf);
   let e6 := if negb (Z.even (zlen hb)) then [V_FV_CKERR]
             else if sum16 hb =? 0 then [] else [V_FV_CKSUM] in
-  Ok (e1 ++ e2 ++ e3 ++ e4 ++ e5 ++ e6).
+  (* REPAIRED (fixes/C09-validate-free-space-erased.diff): the free space must be erased *)
+  do e7 <-
+    (if fixed && (0 <? v_freespace h) && (v_freespace h <=? fvlen) then
+       do fs <- of_opt 504 (slice (fvlen - v_freespace h) fvlen buf);
+       Ok (if forallb (fun x => x =? fv_polarity (v_attrs h)) fs then [] else [V_FV_FREESPACE])
+     else Ok []);
+  Ok (e1 ++ e2 ++ e3 ++ e4 ++ e5 ++ e6 ++ e7).
+
+Definition validate_vol := validate_vol_gen true.
+Definition validate_vol_old := validate_vol_gen false.
 
 (* File.ChecksumHeader *)
 Definition checksum_header (h : filehdr) (buf : bytes) : outcome Z :=
@@ -129,7 +151,7 @@ Fixpoint validate_gen (fixed : bool) (n : node) {struct n} : outcome (list Z) :=
   | NPad _ _ => Ok []
   | NSec h buf kids => do b <- vlist kids; Ok (validate_sec h buf ++ b)
   | NFile h buf kids => do a <- validate_file_gen fixed h buf; do b <- vlist kids; Ok (a ++ b)
-  | NVol h buf kids => do a <- validate_vol h buf; do b <- vlist kids; Ok (a ++ b)
+  | NVol h buf kids => do a <- validate_vol_gen fixed h buf; do b <- vlist kids; Ok (a ++ b)
   end.
 
 Definition validate := validate_gen true.
